@@ -1,9 +1,10 @@
 #!/bin/bash
-# usage: confirm_seed.sh <ID> [name]  -- independently confirms a seeded change delivered in /tmp/seeds/<ID>/ using the
+# usage: confirm_seed.sh <ID> [name] [round-suffix]  -- (round suffix '2' uses /tmp/wt2_<ID> and /tmp/seeds2/<ID>)
+# independently confirms a seeded change delivered in /tmp/seeds/<ID>/ using the
 # scratch worktree /tmp/wt_<ID>: patch applies to HEAD, demo fails with it and passes without it, pinned suite passes with it.
 # Writes /verif/seeded/<name>/{patch.diff,demo.py,meta.json} and removes the worktree.
-ID=$1; NAME=${2:-$1}
-WT=/tmp/wt_$ID; SRC=/tmp/seeds/$ID; DST=/verif/seeded/$NAME
+ID=$1; NAME=${2:-$1}; R=${3:-}
+WT=/tmp/wt${R}_$ID; SRC=/tmp/seeds$R/$ID; DST=/verif/seeded/$NAME
 mkdir -p $DST
 cd $WT || exit 9
 git checkout -q -- . && git apply $SRC/patch.diff || { echo "patch does not apply"; exit 9; }
